@@ -265,6 +265,7 @@ def build_wf(w: dict, env: Env | None = None):
             kw["times"] = w["times"]
         if w.get("interpolator"):
             kw["interpolator"] = w["interpolator"]
+        kw.update(w.get("kwargs") or {})  # extra keyword arguments of the interpolator (e.g. kind="quadratic")
         return W.InterpolatedWaveform(d, vals, **kw)
     if k == "composite":
         return W.CompositeWaveform(*[build_wf(x, env) for x in w["parts"]])
